@@ -259,6 +259,12 @@ struct ProjFn
             using std::exp;
             return exp(-(std::is_same<T, float>::value ? T(20) : T(45)) * x[0]);
         }
+        if (family == 2)
+        {
+            // values in the subnormal range of T (a tiny cross section): small integer multiples of denorm_min
+            using std::floor;
+            return (x[0] < T(0.2)) ? T(0) : (T(1) + floor(x[0] * T(1000))) * std::numeric_limits<T>::denorm_min();
+        }
         return (x[0] < T(0.2)) ? T(0) : (T(1) + x[0] - T(1.7) * x[dims - 1]);
     }
     // projected coordinates: affine in the point so that a good part falls outside the range
@@ -322,7 +328,6 @@ void differential(vf::Ctx& c, std::vector<Spec<T>> const& specs, std::vector<hep
     ProjFn<T> fn;
     fn.specs = &specs;
     fn.family = static_cast<int>(t.pick(3) == 0);
-    if (fn.family == 1) { c.label("steep-integrand"); }
     c.desc << " | differential " << (integrator == 0 ? "PLAIN" : integrator == 1 ? "VEGAS" : "MULTI") << " N=" << N << " seed=" << seed;
     // run helpers: with distributions, and the plain variant with the same engine
     std::size_t dims = 1 + t.pick(3);
@@ -336,6 +341,8 @@ void differential(vf::Ctx& c, std::vector<Spec<T>> const& specs, std::vector<hep
     // contribute neither to the integral nor to any bin (in the run with distributions and in the separate runs alike)
     T const poison_above = (integrator == 2 && t.pick(3) == 0) ? static_cast<T>(0.5 + 0.45 * t.unit()) : T(2);
     if (poison_above < T(2)) { c.label("non-finite-weight-region"); c.desc << " jacobian=inf for x0>" << vf::show(poison_above); }
+    if (t.pick(6) == 1) { fn.family = 2; c.label("subnormal-values"); c.desc << " subnormal-values"; }
+    if (fn.family == 1) { c.label("steep-integrand"); }
     fn.dims = dims;
     auto run_dist = [&]() -> hep::plain_result<T> {
         std::mt19937 eng(seed);
@@ -371,7 +378,8 @@ void differential(vf::Ctx& c, std::vector<Spec<T>> const& specs, std::vector<hep
             VF_CHECK(c, bins[b].non_zero_calls() <= N && bins[b].finite_calls() <= bins[b].non_zero_calls(), "C11:bin-counters", "bin counters");
             // sums: the separate run adds f*w/area, the bin adds f*w and scales by 1/area afterwards
             long double const scale_abs = std::sqrt(static_cast<long double>(sep.sum_of_squares()) * N) + std::fabs(static_cast<long double>(sep.sum()));
-            long double const tol_sum = 16 * eps * scale_abs + 4 * N * static_cast<long double>(std::numeric_limits<T>::denorm_min()) + 1e-300L;
+            // (absolute term: every term is rounded to the subnormal grid once; the bin is divided by the area afterwards)
+            long double const tol_sum = 16 * eps * scale_abs + 4 * N * static_cast<long double>(std::numeric_limits<T>::denorm_min()) * std::max(1.0L, 1.0L / area) + 1e-300L;
             long double const err_sum = std::fabs(static_cast<long double>(bins[b].sum()) - static_cast<long double>(sep.sum()));
             c.note_margin(tol_sum, err_sum);
             VF_CHECK(c, err_sum <= tol_sum, "C11:bin-vs-separate-sum", "distribution " << d << " bin " << b << ": sum " << vf::show(bins[b].sum())
@@ -399,7 +407,8 @@ void differential(vf::Ctx& c, std::vector<Spec<T>> const& specs, std::vector<hep
         g.restrict_dist = static_cast<int>(d);
         g.inside_only = true;
         hep::plain_result<T> const inside = run_plain(g);
-        long double const tol = 32 * eps * (total_abs + std::fabs(static_cast<long double>(inside.sum()))) + 1e-300L;
+        long double const tol = 32 * eps * (total_abs + std::fabs(static_cast<long double>(inside.sum())))
+            + 4 * (N + bins.size()) * (area + 1.0L) * static_cast<long double>(std::numeric_limits<T>::denorm_min()) + 1e-300L;
         VF_CHECK(c, std::fabs(total - static_cast<long double>(inside.sum())) <= tol, "C11:bins-do-not-add-up", "distribution " << d << ": bins x areas sum to "
             << vf::show<long double>(total) << ", the integrand restricted to the range sums to " << vf::show(inside.sum()));
     }
